@@ -1,2 +1,157 @@
 //! verification hooks for engine `scope` (cfg(xray_verif) only)
+//!
+//! `dump_compiled`: an S-expression of what the compiler built for the *user's* part of a root
+//! compilation scope: the cells of every scope (Variable / Recourse / Capture{depth, idx}), the
+//! declarations in order, and the `XExpr` trees with their `Value(idx)` references.
 #![allow(unreachable_pub, dead_code, unused_imports)]
+
+use crate::compilation_scope::{Cell, CellSpec};
+use crate::root_compilation_scope::{Declaration, RootCompilationScope};
+use crate::xexpr::{StaticUserFunction, XExpr, XStaticFunction};
+
+/// (number of cells, number of declarations) of the root scope right now; taken before the user's
+/// program is fed it is the boundary between the library's and the user's part
+pub fn root_counts<W, R, T>(comp: &RootCompilationScope<W, R, T>) -> (usize, usize) {
+    (comp.scope.cells.len(), comp.scope.declarations.len())
+}
+
+fn spec_str(c: &CellSpec) -> String {
+    match c {
+        CellSpec::Recourse => "R".to_string(),
+        CellSpec::Variable => "V".to_string(),
+        CellSpec::Capture {
+            ancestor_depth,
+            cell_idx,
+        } => format!("(C {} {})", ancestor_depth.0, cell_idx),
+    }
+}
+
+fn expr_str<W, R, T>(e: &XExpr<W, R, T>, out: &mut String) {
+    let list = |tag: &str, items: &[XExpr<W, R, T>], out: &mut String| {
+        out.push('(');
+        out.push_str(tag);
+        for i in items {
+            out.push(' ');
+            expr_str(i, out);
+        }
+        out.push(')');
+    };
+    match e {
+        XExpr::LiteralBool(..)
+        | XExpr::LiteralInt(..)
+        | XExpr::LiteralFloat(..)
+        | XExpr::LiteralString(..) => out.push_str("lit"),
+        XExpr::Array(items) => list("arr", items, out),
+        XExpr::Tuple(items) => list("tup", items, out),
+        XExpr::Construct(_, _, items) => list("construct", items, out),
+        XExpr::Call(f, args) => {
+            out.push_str("(call ");
+            expr_str(f, out);
+            for a in args {
+                out.push(' ');
+                expr_str(a, out);
+            }
+            out.push(')');
+        }
+        XExpr::Variant(_, _, idx, inner) => {
+            out.push_str(&format!("(variant {idx} "));
+            expr_str(inner, out);
+            out.push(')');
+        }
+        XExpr::Member(obj, idx) => {
+            out.push_str("(member ");
+            expr_str(obj, out);
+            out.push_str(&format!(" {idx})"));
+        }
+        XExpr::MemberValue(obj, idx) => {
+            out.push_str("(membervalue ");
+            expr_str(obj, out);
+            out.push_str(&format!(" {idx})"));
+        }
+        XExpr::MemberOptValue(obj, idx) => {
+            out.push_str("(memberoptvalue ");
+            expr_str(obj, out);
+            out.push_str(&format!(" {idx})"));
+        }
+        XExpr::Value(idx) => out.push_str(&format!("(val {idx})")),
+        XExpr::Dummy(..) => out.push_str("dummy"),
+    }
+}
+
+fn decl_str<W, R, T>(d: &Declaration<W, R, T>, out: &mut String) {
+    match d {
+        Declaration::Parameter {
+            cell_idx,
+            argument_idx,
+        } => out.push_str(&format!("(param {cell_idx} {argument_idx})")),
+        Declaration::Value { cell_idx, expr } => {
+            out.push_str(&format!("(value {cell_idx} "));
+            expr_str(expr, out);
+            out.push(')');
+        }
+        Declaration::FactoryFunction { cell_idx, .. } => {
+            out.push_str(&format!("(factory {cell_idx})"))
+        }
+        Declaration::Function { cell_idx, func } => {
+            out.push_str(&format!("(function {cell_idx} "));
+            match func {
+                XStaticFunction::Native(..) => out.push_str("native"),
+                XStaticFunction::UserFunction(uf) => func_str(uf, out),
+            }
+            out.push(')');
+        }
+    }
+}
+
+fn func_str<W, R, T>(uf: &StaticUserFunction<W, R, T>, out: &mut String) {
+    out.push_str(&format!("(ud {} (cells", uf.param_len));
+    for c in &uf.cell_specs {
+        out.push(' ');
+        out.push_str(&spec_str(c));
+    }
+    out.push_str(") (defaults");
+    for d in &uf.defaults {
+        out.push(' ');
+        expr_str(d, out);
+    }
+    out.push_str(") (decls");
+    for d in &uf.declarations {
+        out.push(' ');
+        decl_str(d, out);
+    }
+    out.push_str(") (out ");
+    expr_str(&uf.output, out);
+    let mut fr: Vec<String> = uf
+        .forward_requirements
+        .iter()
+        .map(|r| format!("{r:?}"))
+        .collect();
+    fr.sort();
+    out.push_str(&format!(") (freqs {}))", fr.len()));
+}
+
+/// the user's part of the root scope: cells from `base_cells` on, declarations from `base_decls` on
+pub fn dump_compiled<W, R, T>(
+    comp: &RootCompilationScope<W, R, T>,
+    base_cells: usize,
+    base_decls: usize,
+) -> String {
+    let mut out = format!("(root {base_cells} (cells");
+    for c in comp.scope.cells.iter().skip(base_cells) {
+        out.push(' ');
+        out.push_str(&spec_str(&CellSpec::from(c.clone())));
+    }
+    out.push_str(") (decls");
+    for d in comp.scope.declarations.iter().skip(base_decls) {
+        out.push(' ');
+        decl_str(d, &mut out);
+    }
+    out.push_str("))");
+    out
+}
+
+/// the cell a top-level variable name is bound to right now (latest declaration), if any
+pub fn variable_cell<W, R, T>(comp: &RootCompilationScope<W, R, T>, name: &str) -> Option<usize> {
+    let id = comp.get_identifier(name)?;
+    comp.scope.get_variable_cell(&id).copied()
+}
